@@ -164,6 +164,30 @@ func evalInjected(r injResult, pre *hx.World, inj injectSpec, plainCalls []sim.C
 		}
 	}
 
+	// Helm's create of a manifest resource met an existing not-owned object: the operation must not end deployed
+	// (clause (b): every object named by the deployed revision's manifest carries this release's ownership items)
+	if !res.Failed && len(t.PostHist) > 0 && t.PostHist[len(t.PostHist)-1].Info.Status.String() == "deployed" {
+		named := manifestDocs(t.PostHist[len(t.PostHist)-1].Manifest)
+		for _, p := range sortedKeys(r.firstMut) {
+			b := r.firstMut[p]
+			if b == nil || !strings.HasPrefix(r.firstMutLabel[p], "POST ") {
+				continue
+			}
+			var live map[string]any
+			json.Unmarshal(b, &live)
+			if _, ok := named[p]; !ok || hx.OwnershipProblem(live, name, hx.Namespace) == "" {
+				continue
+			}
+			var now map[string]any
+			json.Unmarshal(postObjs[p], &now)
+			if why := hx.OwnershipProblem(now, name, hx.Namespace); why != "" {
+				probs = append(probs, problem{Clause: "D", Key: core.SanitizeKey(fmt.Sprintf("D-deployed-over-unowned|%s|%s|%s", shape, phase, kindNameOfPath(p))),
+					What: fmt.Sprintf("%s (%s, created by another actor before call #%d %q of the %s) existed and was not owned by %s/%s when Helm sent %q; the %s nevertheless reported success, revision %d is deployed and names the object, which still is not this release's: %s (%s)",
+						resOfPath(p), classify(b, name), k, inj.Label, op.Kind, name, hx.Namespace, r.firstMutLabel[p], op.Kind, t.PostHist[len(t.PostHist)-1].Version, why, ownershipItems(now))})
+			}
+		}
+	}
+
 	// injection before the ownership check: clause (a)
 	if phase == "pre-check" && !op.TakeOwnership {
 		var muts []string
@@ -254,7 +278,7 @@ func (x *explorer) injectFamily() {
 			if c.Only != "" && !strings.Contains(drv+"|inject/"+cx.Name, c.Only) {
 				continue
 			}
-			for i := range slots {
+			for i := 0; i < nInjectSlots; i++ {
 				for _, kind := range kinds {
 					if !c.NextMine() {
 						continue
@@ -335,6 +359,11 @@ func (x *explorer) injectUnit(drv string, cx injCtx, slotIdx, kind int) {
 		}
 		if out == "create-409" || out == "abort-not-in-original" {
 			c.Floor("inject-" + out)
+		}
+		if out == "create-409" && len(probs) == 0 {
+			if h := r.t.PostHist; len(h) == 0 || h[len(h)-1].Info.Status.String() != "deployed" || h[len(h)-1].Version == 1 && op.Kind != "install" {
+				c.Floor("inject-create-met-unowned-not-deployed")
+			}
 		}
 		untouched := 0
 		for _, b := range r.firstMut {
